@@ -96,19 +96,31 @@ func parseRaceLog(text string) []raceReport {
 		sdk := 0
 		for _, a := range accs {
 			key := ""
-			for _, f := range a.frames {
+			sdkKey := func(f [2]string) string {
+				name := strings.TrimPrefix(f[0], sdkPrefix)
+				if j := strings.Index(name, "."); j >= 0 {
+					name = name[j+1:] // drop the package
+				}
+				name = genericArgs.ReplaceAllString(strings.TrimSuffix(name, "()"), "")
+				return filepath.Base(strings.SplitN(f[1], ":", 2)[0]) + ":" + name
+			}
+			for i, f := range a.frames {
 				fn := f[0]
 				if strings.HasPrefix(fn, "main.") || strings.HasPrefix(fn, "verif/harness/") {
-					break // a harness frame above every SDK frame
+					// a harness frame above every SDK frame: either the harness's own access (no SDK frame
+					// below: the report is the harness's own race), or a plugin callback (initializer, step or
+					// signal handler) the SDK invoked - data the SDK hands from one callback to another without
+					// synchronisation is the SDK's race
+					for _, g := range a.frames[i+1:] {
+						if strings.HasPrefix(g[0], sdkPrefix) {
+							key = "callback<-" + sdkKey(g)
+							break
+						}
+					}
+					break
 				}
 				if strings.HasPrefix(fn, sdkPrefix) {
-					name := strings.TrimPrefix(fn, sdkPrefix)
-					if j := strings.Index(name, "."); j >= 0 {
-						name = name[j+1:] // drop the package
-					}
-					name = genericArgs.ReplaceAllString(strings.TrimSuffix(name, "()"), "")
-					file := filepath.Base(strings.SplitN(f[1], ":", 2)[0])
-					key = file + ":" + name
+					key = sdkKey(f)
 					break
 				}
 			}
